@@ -3,6 +3,7 @@
 on generated projects. Prints one JSON object like the tools/replay engines. Suites: tuples (C18, C01), output (C03)."""
 import itertools, json, os, shutil, subprocess, sys, tempfile
 sys.path.insert(0, os.path.dirname(os.path.abspath(__file__)))
+import time
 import engine as E
 
 
@@ -646,6 +647,113 @@ def suite_includes(exe, tier, seed):
             "samples": samples, "violations": viol}
 
 
+def totality_cases(tier):
+    """grammar-valid but unusual programs: (name, source, extra args)"""
+    P = "pragma circom 2.0.0;\n"
+    cases = []
+    # Circomlib's template names with every small arity (the passes match on names)
+    for name in ["Num2Bits", "Bits2Num", "LessThan", "Sign", "AliasCheck", "Poseidon", "Num2Bits_strict"]:
+        for ar in range(0, 4):
+            params = ", ".join(f"p{i}" for i in range(ar))
+            args = ", ".join(str(7 + i) for i in range(ar))
+            src = (P + f"template {name}({params}) {{ signal input in; signal output out; out <== in; }}\n"
+                   f"template Main() {{ signal input x; signal output y; component c = {name}({args}); c.in <== x; y <== c.out; }}\ncomponent main = Main();\n")
+            for curve in (["BN254", "BLS12_381", "GOLDILOCKS"] if tier == "thorough" or ar != 1 else ["BN254"]):
+                cases.append((f"arity:{name}/{ar}/{curve}", src, ["--curve", curve]))
+    def T(body, decl="signal input x; signal output y;"):
+        return P + f"template Main() {{ {decl}\n{body}\n}}\ncomponent main = Main();\n"
+    big = "9" * 400
+    cases += [
+        ("empty-template", P + "template Main() {}\ncomponent main = Main();\n", []),
+        ("only-declarations", T("var a; var b[3]; signal s;"), []),
+        ("function-only", P + "function f(a) { return a; }\n", []),
+        ("function-no-params", P + "function f() { return 1; }\ntemplate Main() { signal output y; y <== f(); }\ncomponent main = Main();\n", []),
+        ("nested-if-30", T("var v = 0;\n" + "".join(f"if (x == {i}) {{ " for i in range(30)) + "v = 1;" + " }" * 30 + "\ny <== x + v;"), []),
+        ("nested-loops-8", T("var v = 0;\n" + "".join(f"for (var i{i} = 0; i{i} < 2; i{i}++) {{ " for i in range(8)) + "v += 1;" + " }" * 8 + "\ny <== x + v;"), []),
+        ("paren-depth-300", T("y <== " + "(" * 300 + "x" + ")" * 300 + ";"), []),
+        ("sum-chain-2000", T("y <== " + " + ".join(["x"] * 2000) + ";"), []),
+        ("unary-chain-200", T("var v = " + "-" * 200 + "1;\ny <== x + v;"), []),
+        ("not-chain-200", T("var v = " + "!" * 200 + "1;\ny <== x + v;"), []),
+        ("huge-decimal-literal", T(f"var v = {big};\ny <== x + v;"), []),
+        ("huge-literal-in-shift", T(f"var v = 1 << {big};\nvar w = {big} >> 3;\ny <== x + v + w;"), []),
+        ("huge-literal-in-pow", T(f"var v = 2 ** {big};\ny <== x + v;"), []),
+        ("hex-literal", T("var v = 0xFFFFFFFFFFFFFFFFFFFFFFFFFFFFFFFFFFFFFFFFFFFFFFFFFFFFFFFFFFFFFFFFFFFFFFFF;\ny <== x + v;"), []),
+        ("division-by-constant-zero", T("var a = 1 / 0; var b = 5 \\ 0; var c = 5 % 0;\ny <== x + a + b + c;"), []),
+        ("zero-dimension-array", T("var a[0]; signal s[0];\ny <== x;"), []),
+        ("log-many-args", T("log(" + ", ".join(["x"] * 200) + ");\ny <== x;"), []),
+        ("assert-false", T("assert(0);\ny <== x;"), []),
+        ("comparison-chain", T("var v = ((((x < 1) < 2) <= 3) > 4) >= 5;\ny <== x + v;"), []),
+        ("ternary-nest-100", T("var v = " + "".join(f"x == {i} ? {i} : " for i in range(100)) + "0;\ny <== x + v;"), []),
+        ("while-false", T("var v = 0; while (0) { v += 1; }\ny <== x + v;"), []),
+        ("bare-bodies", T("var v = 0; if (x == 1) v = 1; else v = 2; for (var i = 0; i < 2; i++) v += i; while (v < 3) v++;\ny <== x;"), []),
+        ("component-array", P + "template A() { signal input in; signal output out; out <== in; }\ntemplate Main() { signal input x; signal output y; component c[3]; for (var i = 0; i < 3; i++) { c[i] = A(); c[i].in <== x; } y <== c[2].out; }\ncomponent main = Main();\n", []),
+        ("many-templates-300", P + "".join(f"template T{i}() {{ signal input a; signal output b; b <== a; }}\n" for i in range(300)) + "component main = T0();\n", []),
+        ("long-identifier", T("var " + "v" * 3000 + " = 1;\ny <== x + " + "v" * 3000 + ";"), []),
+        ("main-with-public-list", P + "template Main() { signal input x; signal input z; signal output y; y <== x * z; }\ncomponent main {public [x, z]} = Main();\n", []),
+        ("pragma-custom-templates", "pragma circom 2.1.0;\npragma custom_templates;\ntemplate custom C() { signal input a; signal output b; b <-- a; }\ntemplate Main() { signal input x; signal output y; component c = C(); c.a <== x; y <== c.b; }\ncomponent main = Main();\n", []),
+    ]
+    # lexer-level and byte-level inputs (bytes objects are written verbatim)
+    cases += [
+        ("hex-without-digits", T("var v = 0x;\ny <== x + v;"), []),
+        ("hex-upper-prefix", T("var v = 0X1F;\ny <== x + v;"), []),
+        ("number-then-identifier", T("var v = 12abc;\ny <== x + v;"), []),
+        ("empty-file", "", []),
+        ("only-whitespace", " \n\t\r\n", []),
+        ("only-comment-opener", "/*", []),
+        ("only-pragma", "pragma circom 2.0.0;\n", []),
+        ("bom-prefix", "\ufeff" + T("y <== x;"), []),
+        ("invalid-utf8", b"pragma circom 2.0.0;\ntemplate Main() { signal input x; signal output y; y <== x; } // \xff\xfe\xc3\x28\ncomponent main = Main();\n", []),
+        ("nul-bytes", b"pragma circom 2.0.0;\n\x00\x00template Main() { signal input x; signal output y; y <== x; }\ncomponent main = Main();\n", []),
+        ("unbalanced-braces", P + "template Main() { signal input x; signal output y; y <== x; \n", []),
+        ("unbalanced-parens", T("y <== ((((x;"), []),
+        ("string-unterminated", T('log("abc);\ny <== x;'), []),
+        ("long-line-200k", T("y <== x; //" + "a" * 200000), []),
+        ("non-ascii-identifiers", T("var \u00e9t\u00e9 = 1;\ny <== x;"), []),
+        ("non-ascii-in-error-position", P + "template Main() { signal input x; signal output y; y <== x \u00e9\u00e9\u00e9 ; }\ncomponent main = Main();\n", []),
+        ("include-empty-path", P + 'include "";\ntemplate Main() { signal input x; signal output y; y <== x; }\ncomponent main = Main();\n', []),
+        ("pragma-version-garbage", "pragma circom 99999999999999999999.0.0;\ntemplate Main() { signal input x; signal output y; y <== x; }\ncomponent main = Main();\n", []),
+    ]
+    return cases
+
+
+def suite_totality(exe, tier, seed):
+    viol, samples = [], []
+    evals = nontrivial = 0
+    d = tempfile.mkdtemp(prefix="vx-e2e-")
+    try:
+        for (name, src, args) in totality_cases(tier):
+            path = os.path.join(d, "t.circom")
+            if isinstance(src, bytes):
+                open(path, "wb").write(src)
+            else:
+                open(path, "w").write(src)
+            t0 = time.time()
+            rc, out, err = run_cli(exe, args + [path], d, timeout=60)
+            dt = time.time() - t0
+            evals += 1
+            nontrivial += 1
+            if len(samples) < 6 and evals % 17 == 1:
+                samples.append({"case": name, "exit": rc, "seconds": round(dt, 2)})
+            what = None
+            if rc is None:
+                what = "the tool did not terminate within 60 s"
+            elif "panicked" in err or "overflowed its stack" in err or rc not in (0, 1):
+                first = next((l for l in err.split("\n") if "panicked" in l or "overflow" in l), err[:200])
+                what = f"the tool aborted (exit {rc}): {first.strip()[:200]}"
+            elif "circomspect:" not in out:
+                what = f"no summary line was printed (exit {rc})"
+            if what and len(viol) < 20:
+                viol.append({"unit": "e2e", "fn": "whole tool", "obligation": f"e2e|totality|{name}", "props": ["C01"],
+                             "input": {"case": name, "args": args, "source_bytes": len(src), "source_head": (src[:400].decode("latin-1") if isinstance(src, bytes) else src[:400])},
+                             "what": f"{name}: {what}", "replay": "python3 run/e2e.py totality quick 0"})
+    finally:
+        shutil.rmtree(d, ignore_errors=True)
+    return {"unit": "e2e-totality", "evaluations": evals, "distinct_nontrivial": nontrivial, "exhaustive": False,
+            "rule": "the real CLI on grammar-valid but unusual programs: it terminates within 60 s with exit status 0 or 1, prints its summary line, and neither panics nor overflows its stack",
+            "bound": "templates with Circomlib's names and every arity 0..3 under the curves; 27 structural oddities and 18 lexer- and byte-level inputs (hex prefix without digits, empty file, invalid UTF-8, NUL bytes, BOM, unbalanced brackets, 200 000-character lines, non-ASCII text at error positions; empty bodies, deep nesting of ifs / loops / parentheses / ternaries, 2000-term sums, 200-fold unary chains, 400-digit literals in shifts and powers, division by constant zero, zero-sized arrays, 300 templates, 3000-character identifiers, custom templates)",
+            "samples": samples, "violations": viol}
+
+
 def main():
     suite, tier, seed = sys.argv[1], (sys.argv[2] if len(sys.argv) > 2 else "quick"), int(sys.argv[3]) if len(sys.argv) > 3 else 0
     try:
@@ -653,7 +761,7 @@ def main():
     except Exception as e:
         print(json.dumps({"error": str(e)}))
         return
-    r = {"tuples": suite_tuples, "output": suite_output, "values": suite_values, "curves": suite_curves, "includes": suite_includes}[suite](exe, tier, seed)
+    r = {"tuples": suite_tuples, "output": suite_output, "values": suite_values, "curves": suite_curves, "includes": suite_includes, "totality": suite_totality}[suite](exe, tier, seed)
     print(json.dumps(r))
 
 if __name__ == "__main__":
